@@ -99,6 +99,17 @@ def step (d : LD) (toks : List String) (impl : String) : LD × Res :=
       ++ (if impl == "found genuine=0" then ["content_is_what_a_peer_supplied"] else [])
       ++ (if holders == 0 && impl != "notfound" then ["not_found_when_nobody_holds_it"] else [])
     (d, { model := "", skipCompare := true, monitor := mon, tags := ["clookup", s!"holders{holders}", (impl.splitOn " ").headD ""] })
+  | "nlookup" :: _ =>
+    -- network-level node lookup with the asker's bucket full: "at most 16 distinct nodes sorted by XOR distance to the target
+    -- with no closer seen node omitted" - the target itself was named by a queried peer, so it leads the result
+    let it := words impl
+    let named := kvNat toks "named" == 1
+    let mon := (if impl == "wedged" then ["node_lookup_returns"] else [])
+      ++ (if impl != "wedged" && (kvNat it "n" > 16 || kvNat it "sorted" != 1 || kvNat it "distinct" != 1) then ["result_le16_sorted_distinct"] else [])
+      ++ (if impl != "wedged" && kvNat it "self" != 0 then ["result_never_self"] else [])
+      ++ (if impl != "wedged" && named && kvNat it "target_first" != 1 then ["no_closer_seen_node_omitted"] else [])
+    (d, { model := "", skipCompare := true, monitor := mon,
+          tags := ["nlookup", s!"fillers{kvNat toks "fillers"}", s!"named{kvNat toks "named"}", s!"first{kvNat it "target_first"}"] })
   | _ => (d, { model := "bad-op", tags := ["bad-op"], nontrivial := false })
 where showIdxOrdered (l : List Nat) : String := if l.isEmpty then "-" else ",".intercalate (l.map toString)
 
